@@ -322,6 +322,7 @@ Eval vm_compute in (match c with (rec, cc, en, bl, roots, al, cg) =>
                     if rc != 0:
                         ck.violation("C09-not-self-contained", "the allowlisted bindings do not compile on their own", dict(data, rustc=e2e.rustc_errors(se, 3)))
         ns_paths(ck, bindgen, tmp)
+        cpp_class_closure(ck, bindgen, tmp)
         if graphs:
             ck.sample({"header": graphs[0][1].header(), "scenario": graphs[0][3][0][0], "expected_items": sorted(graphs[0][1].closure(graphs[0][3][0][1], graphs[0][3][0][2]))})
     finally:
@@ -364,6 +365,58 @@ def ns_paths(ck, bindgen, tmp):
                     ck.violation("C09-namespace-path:%s:%s" % (kind, "not-selected" if expect else "selected-by-shorter-name"),
                                  "an item inside a namespace is %s" % ("not selected by its namespace-qualified path" if expect else "selected by a pattern that does not match its whole path"),
                                  {"header": text, "flags": ["--allowlist-%s" % kind, pat] + nsflag + ["--", "-x", "c++"], "item_path": path, "looked_for": ident, "emitted": re.findall(r"pub (?:struct|type|fn|static|const|mod)[^;{(]*", out)[:12]})
+
+
+CPP_EDGES = [  # (kind, C++ member text using Leaf_<kind>)
+    ("field", "Leaf_field f;"), ("ptr_field", "Leaf_ptr_field *pf;"), ("array_field", "Leaf_array_field af[2];"), ("method_param", "int m1(Leaf_method_param a);"),
+    ("method_ret", "Leaf_method_ret m2();"), ("method_ptr", "void m3(const Leaf_method_ptr *p) const;"), ("static_param", "static int s1(Leaf_static_param a);"),
+    ("ctor_param", "K(Leaf_ctor_param a);"), ("virtual_param", "virtual int v1(Leaf_virtual_param a);"), ("pure_virtual_param", "virtual int pv1(Leaf_pure_virtual_param a) = 0;"),
+    ("pure_virtual_ret", "virtual Leaf_pure_virtual_ret *pv2() = 0;"), ("template_arg", "Tm<Leaf_template_arg> t;"), ("template_ptr_arg", "Tm<Leaf_template_ptr_arg *> tp;"),
+    ("static_member", "static Leaf_static_member sm;"), ("operator_param", "K &operator+=(const Leaf_operator_param &o);"), ("ref_param", "void m4(Leaf_ref_param &r);"),
+    ("fnptr_field", "int (*cb)(Leaf_fnptr_field *);"), ("typedef_member", "typedef Leaf_typedef_member inner_t; inner_t it;"), ("enum_param", "void m5(LeafEnum_enum_param e);"),
+    ("method_fnptr", "void m6(void (*cb2)(Leaf_method_fnptr));"), ("dtor", "~K();")]
+
+
+def cpp_class_closure(ck, bindgen, tmp):
+    """C++: everything an allowlisted class needs, one leaf type per kind of edge (members, methods of every sort, template arguments,
+    static members, base classes); the subset must compile alone under the options that decide which methods are emitted"""
+    r = ck.rng
+    edges = CPP_EDGES[:]
+    r.shuffle(edges)
+    text = "template<class T> struct Tm { T v; };\nstruct Unrelated { int u; };\nstruct Leaf_unused { int z; };\nint unrelated_fn(Unrelated *);\n"
+    for kind, _ in edges:
+        if kind == "dtor":
+            continue
+        text += ("enum LeafEnum_%s { LE_%s };\n" % (kind, kind)) if kind == "enum_param" else ("struct Leaf_%s { int x_%s; };\n" % (kind, kind))
+    text += "struct Leaf_base { int b; };\nstruct Leaf_base_method_param { int q; };\nclass Base : public Leaf_base { public: int bm(Leaf_base_method_param p); virtual ~Base(); };\n"
+    text += "class K : public Base {\npublic:\n" + "".join("  %s\n" % t for _, t in edges) + "};\n"
+    text += "struct Leaf_fn_param { int h; };\nint uses_k(K *k, Leaf_fn_param p);\n"
+    p = os.path.join(tmp, "cppk.hpp")
+    open(p, "w").write(text)
+    # (operators get no binding by default, so what only an operator's signature names is not needed)
+    leaves = ["Leaf_%s" % k for k, _ in edges if k not in ("dtor", "enum_param", "operator_param")] + ["LeafEnum_enum_param", "Leaf_base", "Leaf_base_method_param", "Base", "K"]
+    for roots, extra_expect in ((["--allowlist-type", "K"], []), (["--allowlist-function", "uses_k"], ["Leaf_fn_param"])):
+        for flags in ([], ["--vtable-generation"], ["--generate-pure-virtual-functions"], ["--generate-inline-functions", "--enable-cxx-namespaces"], ["--vtable-generation", "--generate-pure-virtual-functions", "--with-derive-default"]):
+            fl = roots + ["--no-layout-tests"] + flags
+            rc, out, err = sh2([bindgen, p] + fl + ["--", "-x", "c++", "-std=c++14"], timeout=120)
+            ck.evaluations += 1
+            ck.nontrivial.add(("cpp-class", text, tuple(fl)))
+            data = {"header": text, "flags": fl + ["--", "-x", "c++", "-std=c++14"]}
+            if rc != 0:
+                ck.violation("C09-allowlist-run-failed", "bindgen fails with an allowlist on a header it accepts without", dict(data, stderr=err[-300:]))
+                continue
+            names = set(re.findall(r"pub (?:struct|union|type|enum|mod) (\w+)", out)) | set(re.findall(r"pub const (LeafEnum_\w+)_", out))
+            missing = [l for l in leaves + extra_expect if l not in names and not (l.startswith("LeafEnum") and re.search(r"\b%s\b" % l, out))]
+            if missing:
+                ck.violation("C09-not-closed:cpp-class", "something an allowlisted class needs is missing: %s" % missing, dict(data, missing=missing, emitted=sorted(names)[:60]))
+            extra = [n for n in ("Unrelated", "Leaf_unused", "Leaf_operator_param") if n in names] + (["unrelated_fn"] if re.search(r"pub fn unrelated_fn\b", out) else [])
+            if extra:
+                ck.violation("C09-not-minimal:cpp-class", "items unrelated to the allowlisted class are emitted: %s" % extra, dict(data, extra=extra))
+            src = os.path.join(tmp, "cppk.rs")
+            open(src, "w").write("#![allow(warnings)]\n" + out + "\nfn main() {}\n")
+            rc, so, se = sh2(["rustc", "--edition", "2021", "-A", "warnings", "--emit", "metadata", "-o", src + ".rmeta", src], cwd=tmp, timeout=120)
+            if rc != 0:
+                ck.violation("C09-not-self-contained:cpp-class", "the allowlisted bindings of a C++ class do not compile on their own", dict(data, rustc=e2e.rustc_errors(se, 3)))
 
 
 def replay(ck, path):
